@@ -747,3 +747,113 @@ func TestSmallScopeExhaustive(t *testing.T) {
 	hx.EvalN(int(n))
 	hx.Part(fmt.Sprintf("every valid prefix of length<=%d over the 24-letter alphabet x every invalid frame of opcode(16) x fin x len{0,126} x rsv{0,1} x masked, x 2 sides x extended{0,1} x 6 entry points", depth), n, true)
 }
+
+// TestLargeScale: the offending frame arrives after a valid part the random
+// generator does not reach by size: a frame beyond 1 MiB, a message of 300
+// fragments still open, several hundred complete messages.
+func TestLargeScale(t *testing.T) {
+	const MiB = 1 << 20
+	pattern := func(n, salt int) []byte {
+		p := make([]byte, n)
+		for i := range p {
+			p[i] = byte(i*5+salt) & 0x7f
+		}
+		return p
+	}
+	type shape struct {
+		name  string
+		valid func(mk func(op byte, fin bool, k int, p []byte) ref.Frame) []ref.Frame
+	}
+	shapes := []shape{
+		{"one frame of 1 MiB+1", func(mk func(byte, bool, int, []byte) ref.Frame) []ref.Frame {
+			return []ref.Frame{mk(ref.OpBinary, true, 1, pattern(MiB+1, 1))}
+		}},
+		{"open message: 2 MiB+3 first fragment", func(mk func(byte, bool, int, []byte) ref.Frame) []ref.Frame {
+			return []ref.Frame{mk(ref.OpBinary, false, 1, pattern(2*MiB+3, 2)), mk(ref.OpPing, true, 2, []byte("x"))}
+		}},
+		{"open message of 300 fragments with pings", func(mk func(byte, bool, int, []byte) ref.Frame) []ref.Frame {
+			var fs []ref.Frame
+			for i := 0; i < 300; i++ {
+				op := byte(ref.OpCont)
+				if i == 0 {
+					op = ref.OpText
+				}
+				fs = append(fs, mk(op, false, i, pattern(i%130, i)))
+				if i%9 == 8 {
+					fs = append(fs, mk(ref.OpPing, true, i, pattern(i%126, i)))
+				}
+			}
+			return fs
+		}},
+		{"400 complete messages", func(mk func(byte, bool, int, []byte) ref.Frame) []ref.Frame {
+			var fs []ref.Frame
+			for i := 0; i < 400; i++ {
+				if i%4 == 0 {
+					fs = append(fs, mk(ref.OpBinary, false, i, pattern(i%50, i)), mk(ref.OpCont, true, i, pattern(i%70, i+1)))
+				} else {
+					fs = append(fs, mk(ref.OpText, true, i, pattern(i%200, i)))
+				}
+			}
+			return fs
+		}},
+	}
+	n := 0
+	for si, sh := range shapes {
+		if !hx.Mine(si) {
+			continue
+		}
+		for _, side := range []ref.Side{ref.SideServer, ref.SideClient} {
+			masked := side == ref.SideServer
+			mk := func(op byte, fin bool, k int, p []byte) ref.Frame {
+				h := ref.Header{Fin: fin, Op: op, Masked: masked}
+				if masked {
+					h.Mask = [4]byte{byte(k), 0x5b, byte(k >> 8), 0x0e}
+				}
+				return ref.Frame{H: h, Payload: p}
+			}
+			valid := sh.valid(mk)
+			_, _, frag := ref.Validate(valid, side, false)
+			var bads []ref.Frame
+			bad := func(op byte, fin bool, rsv byte, flipMask bool, nn int) {
+				f := mk(op, fin, 77, markerPayload(nn))
+				f.H.Rsv = rsv
+				if flipMask {
+					f.H.Masked = !f.H.Masked
+					f.H.Mask = [4]byte{9, 9, 9, 9}
+				}
+				bads = append(bads, f)
+			}
+			if frag {
+				bad(ref.OpText, true, 0, false, 10) // new data frame inside the open message
+			} else {
+				bad(ref.OpCont, true, 0, false, 10) // continuation of nothing
+			}
+			bad(ref.OpPing, true, 0, false, 126) // oversized control frame
+			bad(ref.OpBinary, true, 4, false, 3)  // reserved bit
+			bad(ref.OpCont, frag, 0, true, 5)     // wrong mask bit
+			bad(0xb, true, 0, false, 0)           // reserved opcode
+			for _, b := range bads {
+				frames := append(append(append([]ref.Frame(nil), valid...), b), mk(ref.OpBinary, true, 3, markerPayload(9)))
+				idx, broken, _ := ref.Validate(frames, side, false)
+				if idx != len(valid) {
+					t.Fatalf("harness: offending frame expected at %d, reference says %d %v (%s)", len(valid), idx, broken, sh.name)
+				}
+				for _, entry := range []string{"Reader", "Reader+Discard", "ReadMessage", "ReadData", "NextReader"} {
+					for _, chunks := range [][]int{nil, {4093}} {
+						s := scenario{Frames: frames, Bad: idx, Broken: broken, Side: side, Chunks: chunks, BufSize: 0, Entry: entry}
+						n++
+						hx.NonTrivial(hx.Hash("scale", sh.name, entry, int(side), broken.String(), len(chunks)), func() interface{} {
+							return map[string]interface{}{"valid_part": sh.name, "entry": entry, "side": side.String(), "broken": broken.String(), "chunks": chunks}
+						})
+						if err := run(s); err != nil {
+							hx.Failf(t, map[string]interface{}{"valid_part": sh.name, "entry": entry, "side": side.String(), "broken": broken.String(), "chunks": chunks}, "%s: %v", sh.name, err)
+							return
+						}
+					}
+				}
+			}
+		}
+	}
+	hx.EvalN(n)
+	hx.Part("large scale: valid part {1 MiB+1 frame, open 2 MiB+3 fragment, open 300-fragment message, 400 messages} x 5 offending frames x 2 sides x 5 entry points x chunk{all,4093}", int64(n), true)
+}
